@@ -387,6 +387,15 @@ func (m *natmap) Close() error {
 // and serializing an IPv6 address from the example range.
 var maxAddrLen int = len(socks.ParseAddr("[2001:db8::1]:12345"))
 
+// addrWithoutZone drops the IPv6 zone of a UDP address, which only has a meaning
+// on this host and cannot be represented in a SOCKS IP address.
+func addrWithoutZone(addr net.Addr) net.Addr {
+	if udpAddr, ok := addr.(*net.UDPAddr); ok && udpAddr.Zone != "" {
+		return &net.UDPAddr{IP: udpAddr.IP, Port: udpAddr.Port}
+	}
+	return addr
+}
+
 // copy from target to client until read timeout
 func timedCopy(clientAddr net.Addr, clientConn net.PacketConn, targetConn *natconn, l *slog.Logger) {
 	// pkt is used for in-place encryption of downstream UDP packets, with the layout
@@ -422,7 +431,7 @@ func timedCopy(clientAddr net.Addr, clientConn net.PacketConn, targetConn *natco
 			}
 
 			debugUDPAddr(l, "Got response.", clientAddr, slog.Any("target", raddr))
-			srcAddr := socks.ParseAddr(raddr.String())
+			srcAddr := socks.ParseAddr(addrWithoutZone(raddr).String())
 			addrStart := bodyStart - len(srcAddr)
 			// `plainTextBuf` concatenates the SOCKS address and body:
 			// [padding?][salt][address][body][tag][unused]
